@@ -24,7 +24,7 @@ META = {
     "technique": "TLA+ reference semantics of array pipelines; TLC enumerates all pipelines of bounded depth x chunkings; replay in "
                  "separate interpreters with and without array.query-planning; recorded random pipelines validated by TLC",
     "level_text": "Every pipeline of <= 2 operations (thorough 3 on the small shape) from {basic slice, elementwise with constant / with "
-                  "itself / with a reversed copy, sum/max over each axis, transpose, rechunk, concatenate, stack, map_blocks} over the "
+                  "itself / with a reversed copy, sum/max over each axis, transpose (reversal and every permutation), rechunk, concatenate (of equal and of differently chunked inputs), stack, map_blocks} over the "
                   "source arrays of shapes (2,3) and (4,) under ALL chunkings: the expression engine's shape, per-block shapes, content "
                   "and rechunk targets must equal the TLA+ reference, its chunks the classic engine's. Seeded random pipelines of depth "
                   "3-5 on shapes up to (5,4,3) are decided by TLC.",
@@ -124,7 +124,9 @@ def random_cases(rng, n):
         for _ in range(rng.randint(3, 5)):
             choices = ["addk", "mulk", "neg", "mapb", "addself", "T", "rechunk", "slice", "slice"]
             if len(cur) >= 1:
-                choices += ["addrev", "concat", "sum", "max"]
+                choices += ["addrev", "concat", "concatr", "sum", "max"]
+            if len(cur) >= 2:
+                choices += ["perm", "perm"]
             if len(cur) <= 2:
                 choices.append("stack")
             op = rng.choice(choices)
@@ -135,7 +137,14 @@ def random_cases(rng, n):
                 o["k"] = rng.randint(2, 3)
             elif op == "rechunk":
                 o["how"] = rng.choice(["one", "ones", "split1"])
-            elif op == "concat":
+            elif op == "perm":
+                axes = list(range(1, len(cur) + 1))
+                rng.shuffle(axes)
+                o["axes"] = axes
+                cur = [cur[a - 1] for a in axes]
+            elif op in ("concat", "concatr"):
+                if op == "concatr":
+                    o["how"] = rng.choice(["ones", "split1", "one"])
                 o["axis"] = rng.randint(1, len(cur))
                 if cur[o["axis"] - 1] * 2 > 12:
                     continue
@@ -172,7 +181,7 @@ def random_cases(rng, n):
 def core(ctx, rng, shapes, depth, cap, nrandom):
     before = len(ctx.violations)
     spec, cfg = ctx.model(ctx.spec("array", "ArrayExprMC.tla"), {"Shapes": TLA(shapes), "Depth": depth},
-                          invariants=["CellCountOK", "Involutions"])
+                          invariants=["CellCountOK", "Involutions", "PermLaws"])
     exported, _ = ctx.tlc_cases(spec, cfg, label="design+pipelines", timeout=1500)
     if len(exported) > cap:
         exported = rng.sample(exported, cap)
@@ -230,7 +239,7 @@ def core(ctx, rng, shapes, depth, cap, nrandom):
 
 
 def run(ctx):
-    core(ctx, ctx.rng, ctx.pick("{<<2, 3>>, <<4>>}", "{<<2, 3>>, <<4>>, <<3, 2>>}"), 2, ctx.pick(3000, 60000), ctx.pick(400, 5000))
+    core(ctx, ctx.rng, ctx.pick("{<<2, 3>>, <<4>>, <<2, 3, 2>>}", "{<<2, 3>>, <<4>>, <<3, 2>>, <<2, 3, 2>>, <<3, 1, 2>>}"), 2, ctx.pick(3000, 60000), ctx.pick(400, 5000))
     ctx.rule = ("case = (shape, chunking, pipeline) enumerated by TLC, executed under both engines in separate interpreters, or a seeded "
                 "random deeper pipeline under the expression engine; non-trivial = >= 2 operations and a non-empty result")
 
